@@ -49,12 +49,18 @@ def run(tier):
         'only normal-return paths are judged here; exceptional exits are C05/C06',
     ]
     ck.finish(
-        'Structural clauses only - element VALUES and their order are run-time data and are not decided (the property as a whole '
-        'stays beyond static analysis). Decided, for every public modifier/constructor/assignment on every normal-return path the '
+        'Structural clauses only - the VALUES elements hold are run-time data and whole histories are not replayed (the property as a whole '
+        'stays beyond static analysis); what is decided is, per operation and per path, how many elements there are afterwards, which '
+        'position is returned, and WHERE every element of the resulting sequence comes from. Decided, for every public modifier/constructor/assignment on every normal-return path the '
         'engine follows to the end, in every corpus configuration (inline capacity 0/2/4.., heap or inline on entry, conversions '
         'between inline capacities, all element flavours and size types): R01.1 size() after the call equals std::vector\'s '
         'specified count as a linear form of the entry size and the arguments; R01.2 the returned iterator/reference, relative to '
         'data() after the call, is the specified position (insert/emplace/erase: the position of pos/first; emplace_back: the new '
         'last element; operator=/append: *this); R01.3 at(i) returns data()[i] exactly on the paths that establish i < size() and '
-        'raises on the paths that refute it. Laws of internal helpers are inferred (all exits agree modulo the path\'s linear '
+        'raises on the paths that refute it; R01.4 (element types with opaque special members) the element operations on the path - '
+        'single constructions/assignments and whole loops generalised to ranges - tile the final sequence exactly as std::vector '
+        'specifies: the prefix stays or is relocated from the same offsets, the inserted range comes from the value argument (or a '
+        'temporary made from it) / the caller\'s range in order / value-initialisation, the suffix comes from the old elements shifted '
+        'by exactly the inserted (erased) count, nothing else is written, overlapping shifts run in the safe direction and no old '
+        'element is read after it was overwritten. Laws of internal helpers are inferred (all exits agree modulo the path\'s linear '
         'equalities), not tabulated; loops are handled by checked induction variables.')
